@@ -2,6 +2,7 @@ import SF.Lemmas.Sma
 import SF.Lemmas.Cum
 import SF.Lemmas.MinMax
 import SF.Lemmas.Welford
+import SF.Lemmas.Hln
 /-
   C02 — Window statistics equal their definition over exactly the last N values.
   Each theorem: for every window length N ≥ 1 and every finite history `xs` (any length, any values: ties, zeros,
@@ -43,6 +44,11 @@ theorem wmin_spec (N : Nat) (xs : List α) (m : α) (h : Spec.wmin N xs = some m
     m ∈ Spec.lastN N xs ∧ ∀ x ∈ Spec.lastN N xs, m ≤ x := MinMax.minL_least _ m h
 theorem wmax_spec (N : Nat) (xs : List α) (m : α) (h : Spec.wmax N xs = some m) :
     m ∈ Spec.lastN N xs ∧ ∀ x ∈ Spec.lastN N xs, x ≤ m := MinMax.maxL_greatest _ m h
+
+/-- HLNormalizer is 2(x − min)/(max − min) − 1 (0 when max = min) with min, max, x taken over exactly the N most recent
+values: the cached extrema are refreshed whenever the evicted value was one of them -/
+theorem hln_eq (N : Nat) (hN : 0 < N) (xs : List α) :
+    (hlnCore (α := α) N).outAfter xs = .ok (Spec.hln N xs) := Hln.outAfter_eq N hN xs
 
 section welford
 variable [Transc α]
